@@ -1621,6 +1621,25 @@ class InterpStmts:
         label = f.qualname
         spec_st = st.copy()
         spec_st.old = None
+        # 0. a nested function verified on its own fixes some closure variables to constants (`"closure": {"x": "const:..."}`): the proof of its
+        #    contract only covers callers in which those variables have exactly these values
+        for cname, ck in (c.get("closure") or {}).items():
+            if isinstance(ck, str) and ck.startswith("const:"):
+                want = eval(ck[6:], {})
+                try:
+                    have = self.resolve_name(st.copy(), cname)
+                except Exception as ex:
+                    raise Unsupported("closure constant %s of %s cannot be resolved at the call site: %s" % (cname, label, ex))
+                if isinstance(have, SV):
+                    if have.kind.tag in ("int", "bool", "str", "real", "any", "none") and isinstance(want, (int, bool, str, float, type(None))):
+                        g = self.binop_eq(have, want) if hasattr(self, "binop_eq") else None
+                        if g is None:
+                            raise Unsupported("closure constant %s of %s is symbolic at the call site" % (cname, label))
+                        self.emit(st, "pre@call", "%s.closure[%s]" % (label, cname), g)
+                    else:
+                        raise Unsupported("closure constant %s of %s is symbolic at the call site" % (cname, label))
+                elif have != want or type(have) is not type(want):
+                    raise Unsupported("closure constant %s of %s is %r in its contract but %r at the call site" % (cname, label, want, have))
         # 1. preconditions
         for i, r in enumerate(c.get("requires") or []):
             g = self.eval_spec(r, st, env, callee=f)
